@@ -23,7 +23,10 @@ Enum / str / date values) runs the same oracle on a directly built system: varia
 set_input_divide_by_period / set_input_dispatch_by_period where the array handed to set_input
 IS an array object read from the cache that original and clone share, with some sub-periods
 already set; Enum / str / date inputs kept in memory or on disk, cloned, and read through a
-formula comparing them with an Enum member, a string and a date on every side.
+formula comparing them with an Enum member, a string and a date on every side; household
+values read through projectors (person.household(...), household.first_person(...), chained
+person.household.sum / nb_persons / first_person) on the original before the clone and on every
+side after the group input has diverged.
 """
 from __future__ import annotations
 
@@ -61,7 +64,10 @@ RULE = ("random rule systems (3-6 variables of coq/model/Engine.v's expression l
         "member / string / date; memory or forced on-disk storage with random priority variables; the original is "
         "populated (some months of the rule variables pre-set), cloned, then both sides get set_input calls whose "
         "value IS the array object returned by calculate / get_array (shared between the sides), further inputs, "
-        "deletions, calculations, an optional second clone, and a final read of the formula on every side")
+        "deletions, calculations, an optional second clone, and a final read of the formula on every side; a "
+        "household input read by person- and household-level formulas through projectors (person.household(...), "
+        "household.first_person(...), chains), evaluated on the original before the clone and on every side after "
+        "each side got its own value of the household input")
 TRUSTED = ["harness/rules.py: compiler from rule-system terms to real Variable subclasses (formulas call the public API)",
            "harness/c13.py: reading of Holder/Simulation attributes (_memory_storage, _disk_storage, invalidated_caches, "
            "tracer, population back-pointers) for the identity part of the oracle"]
@@ -190,9 +196,9 @@ def gen_case(rng, k):
 
 
 def generate(rng, tier):
-    n = {"quick": 360, "escalated": 800, "thorough": 8000}[tier]
+    n = {"quick": 360, "escalated": 800, "thorough": 4000}[tier]
     cases = [gen_case(rng, k) for k in range(n)]
-    m = {"quick": 160, "escalated": 400, "thorough": 3000}[tier]
+    m = {"quick": 160, "escalated": 400, "thorough": 1500}[tier]
     return cases + [gen_typed_case(rng, k) for k in range(m)]
 
 
@@ -458,7 +464,6 @@ from openfisca_core.taxbenefitsystems import TaxBenefitSystem as _TaxBenefitSyst
 from openfisca_core.variables import Variable as _Variable  # noqa: E402
 import datetime as _datetime  # noqa: E402
 
-_Person = _build_entity(key="person", plural="persons", label="", is_person=True)
 
 
 class Housing(_enums.Enum):
@@ -467,7 +472,7 @@ class Housing(_enums.Enum):
     free = "Free lodger"
 
 
-def _typed_variables():
+def _typed_variables(_Person, _Household):
     class income(_Variable):
         value_type = float
         entity = _Person
@@ -534,10 +539,44 @@ def _typed_variables():
             return (person("income", period) + person("salary", period, options=[_ADD])
                     + person("bonus", period, options=[_ADD]))
 
-    return [income, salary, bonus, hours, rent, housing, name, birth, benefit, total]
+    # group values read THROUGH PROJECTORS (person.household(...), household.first_person(...), chains)
+    class hrent(_Variable):
+        value_type = float
+        entity = _Household
+        definition_period = _periods.DateUnit.MONTH
+
+    class rent_share(_Variable):
+        value_type = float
+        entity = _Person
+        definition_period = _periods.DateUnit.MONTH
+
+        def formula(person, period):
+            return person.household("hrent", period) / person.household.nb_persons()
+
+    class hsalary(_Variable):
+        value_type = float
+        entity = _Household
+        definition_period = _periods.DateUnit.MONTH
+
+        def formula(household, period):
+            return household.sum(household.members("salary", period)) + household.first_person("rent", period)
+
+    class peers(_Variable):
+        value_type = float
+        entity = _Person
+        definition_period = _periods.DateUnit.MONTH
+
+        def formula(person, period):
+            return (person.household("hsalary", period) - person("salary", period)
+                    + person.household.first_person("rent", period)
+                    + person.household.sum(person.household.members("rent", period)))
+
+    return [income, salary, bonus, hours, rent, housing, name, birth, benefit, total, hrent, rent_share, hsalary, peers]
 
 
-TYPED_NAMES = ["income", "salary", "bonus", "hours", "rent", "housing", "name", "birth", "benefit", "total"]
+TYPED_NAMES = ["income", "salary", "bonus", "hours", "rent", "housing", "name", "birth", "benefit", "total",
+               "hrent", "rent_share", "hsalary", "peers"]
+TYPED_GROUP = {"hrent", "hsalary"}
 
 
 def canon(a):
@@ -564,13 +603,28 @@ def canon(a):
 class TypedDriver:
     def __init__(self, case):
         self.case = case
-        self.tbs = _TaxBenefitSystem([_Person])
-        for v in _typed_variables():
+        person = _build_entity(key="person", plural="persons", label="", is_person=True)
+        household = _build_entity(key="household", plural="households", label="", roles=[
+            {"key": "parent", "plural": "parents", "max": 2}, {"key": "child", "plural": "children"}])
+        self.tbs = _TaxBenefitSystem([person, household])
+        for v in _typed_variables(person, household):
             self.tbs.add_variable(v)
 
     def build(self):
         cfg = self.case.get("cfg") or {}
-        sim = _SimulationBuilder().build_default_simulation(self.tbs, count=self.case["count"])
+        ids = self.case.get("ids") or [0] * self.case["count"]
+        sb = _SimulationBuilder()
+        sb.create_entities(self.tbs)
+        sb.declare_person_entity("person", [f"p{i}" for i in range(len(ids))])
+        hp = sb.declare_entity("household", [f"h{j}" for j in range(max(ids) + 1)])
+        hp.members_entity_id = numpy.array(ids, dtype=numpy.int64)
+        parent, child = hp.entity.roles[0], hp.entity.roles[1]
+        seen, roles = {}, []
+        for g in ids:
+            roles.append(parent if seen.get(g, 0) < 2 else child)
+            seen[g] = seen.get(g, 0) + 1
+        hp.members_role = numpy.array(roles, dtype=object)
+        sim = sb.build(self.tbs)
         if cfg.get("disk"):
             sim.memory_config = _MemoryConfig(max_memory_occupation=0,
                                               priority_variables=list(cfg.get("priority", [])))
@@ -588,7 +642,9 @@ class TypedDriver:
 
     def obs(self, sim):
         inv = sorted([str(c.variable), str(c.period)] for c in sim.invalidated_caches)
-        return [self.cache(sim), inv, bool(sim.trace), [int(sim.persons.count)]]
+        hh = sim.populations["household"]
+        return [self.cache(sim), inv, bool(sim.trace),
+                [int(sim.persons.count), int(hh.count), [int(x) for x in hh.members_entity_id]]]
 
     def request(self, sim, req):
         kind = req[0]
@@ -615,6 +671,8 @@ class TypedDriver:
 
 
 def _typed_value(rng, name, n):
+    if name == "hrent":
+        return [float(rng.choice([0, 400, 900, 1200, 2400])) for _ in range(n)]
     if name == "housing":
         return [rng.choice(["owner", "tenant", "tenant", "free"]) for _ in range(n)]
     if name == "name":
@@ -626,8 +684,16 @@ def _typed_value(rng, name, n):
     return [float(rng.choice([0, 600, 1200, 12000, 24000, 36000.5])) for _ in range(n)]
 
 
-def _typed_request(rng, n, year):
+def _typed_request(rng, n, year, g=1):
     month = lambda: f"{year}-{rng.choice([1, 1, 2, 3, 12]):02d}"  # noqa: E731
+    if rng.random() < 0.3:
+        # the group variable diverges; the person-level variables projecting from it are (re)read
+        q = rng.random()
+        if q < 0.4:
+            return ["set", "hrent", month(), _typed_value(rng, "hrent", g)]
+        if q < 0.8:
+            return ["calc", rng.choice(["rent_share", "rent_share", "peers", "hsalary"]), month()]
+        return ["delete", rng.choice(["rent_share", "peers", "hsalary", "hrent"]), rng.choice([None, month()])]
     r = rng.random()
     if r < 0.22:
         # feed a cached array back as an input of a variable with a set_input rule
@@ -662,7 +728,10 @@ def _typed_request(rng, n, year):
 
 
 def gen_typed_case(rng, k):
-    n = rng.randint(1, 3)
+    n = rng.randint(1, 4)
+    g = rng.randint(1, min(3, n))
+    ids = list(range(g)) + [rng.randrange(g) for _ in range(n - g)]     # every household has a member
+    rng.shuffle(ids)
     year = rng.choice([2017, 2018])
     disk = k % 2 == 0
     cfg = {"trace": rng.random() < 0.2}
@@ -671,29 +740,37 @@ def gen_typed_case(rng, k):
     ops = []
     # a populated original: inputs of every type, some months of the rule variables, often a result
     ops.append(["on", 0, ["set", "income", str(year), _typed_value(rng, "income", n)]])
-    for name in ("housing", "rent", "salary", "bonus"):
+    for name in ("housing", "rent", "salary", "bonus", "hrent"):
         for m in sorted(rng.sample([1, 2, 3, 12], rng.randint(0, 2))):
-            ops.append(["on", 0, ["set", name, f"{year}-{m:02d}", _typed_value(rng, name, n)]])
+            ops.append(["on", 0, ["set", name, f"{year}-{m:02d}", _typed_value(rng, name, g if name in TYPED_GROUP else n)]])
     for name in ("name", "birth"):
         if rng.random() < 0.8:
             ops.append(["on", 0, ["set", name, "eternity", _typed_value(rng, name, n)]])
     if rng.random() < 0.5:
         ops.append(["on", 0, rng.choice([["calc", "benefit", f"{year}-01"], ["calc", "total", str(year)],
                                           ["calc", "income", str(year)]])])
+    if rng.random() < 0.7:
+        # the original reads group values through projectors BEFORE it is cloned
+        ops.append(["on", 0, ["calc", rng.choice(["rent_share", "rent_share", "peers"]), f"{year}-{rng.choice([1, 2]):02d}"]])
     nsims = 1
     ops.append(["clone", 0, rng.random() < 0.3])
     nsims += 1
     for _ in range(rng.randint(3, 8)):
-        ops.append(["on", rng.randrange(nsims), _typed_request(rng, n, year)])
+        ops.append(["on", rng.randrange(nsims), _typed_request(rng, n, year, g)])
     if rng.random() < 0.4:
         ops.append(["clone", rng.randrange(nsims), False])
         nsims += 1
         for _ in range(rng.randint(2, 5)):
-            ops.append(["on", rng.randrange(nsims), _typed_request(rng, n, year)])
-    # both sides finally read what depends on the typed inputs
+            ops.append(["on", rng.randrange(nsims), _typed_request(rng, n, year, g)])
+    # every side finally gets its own value of the group input and reads what depends on the inputs
+    m = rng.choice([1, 2, 3])
     for i in range(nsims):
-        ops.append(["on", i, ["calc", "benefit", f"{year}-{rng.choice([1, 2, 3]):02d}"]])
-    return {"kind": "typed", "count": n, "cfg": cfg, "lazy": k % 3 == 2, "ops": ops}
+        ops.append(["on", i, ["set", "hrent", f"{year}-{m:02d}", [float(100 * (i + 1) + 10 * j) for j in range(g)]]])
+    for i in rng.sample(range(nsims), nsims):
+        ops.append(["on", i, ["delete", "rent_share", None]])
+        ops.append(["on", i, ["calc", "rent_share", f"{year}-{m:02d}"]])
+        ops.append(["on", i, ["calc", rng.choice(["benefit", "peers"]), f"{year}-{m:02d}"]])
+    return {"kind": "typed", "count": n, "ids": ids, "cfg": cfg, "lazy": k % 3 == 2, "ops": ops}
 
 
 # ---------------------------------------------------------------------------------------
